@@ -285,7 +285,7 @@ def run(ctx):
     ac.setup(ctx)
     dspecs = cases.gen_pool_specs(ctx.rng, ctx.scale(8, 20))
     dspecs.append({"kind": "combined", "alpha": 1.0, "beta": 1.0, "delta": 1.0, "pos": None, "cat": None})
-    for _ in range(ctx.scale(28, 320)):
+    for _ in range(ctx.scale(28, 900)):
         if ctx.out_of_time():
             break
         case = gen_case(ctx, dspecs)
